@@ -60,9 +60,14 @@ RandQuestion(x) == [name |-> IF Added(x) # {} /\ RandomElement(1 .. 4) <= 3 THEN
 Op(x) ==
   LET die == RandomElement(1 .. 20) IN
   IF Mode = "reply" THEN
-    CASE die <= 7 -> [op |-> "add_auth", rec |-> RandRec(x)]
+    CASE die <= 7 -> [op |-> "add_auth", rec |-> [RandRec(x) EXCEPT !.cf = RandomElement({FALSE, FALSE, TRUE})]]
       [] die <= 10 -> [op |-> "add_cached", rec |-> [RandRec(x) EXCEPT !.ttl = TtlBytes(1000)]]
-      [] die <= 12 -> [op |-> "remove", rec |-> RandRec(x)]
+      \* removals mostly target records registered earlier, with either value of the cache-flush bit and any TTL
+      [] die <= 12 -> [op |-> "remove",
+                       rec |-> [(IF Added(x) # {} /\ RandomElement({1, 2, 3}) > 1
+                                 THEN RandomElement({x[i].rec : i \in {j \in 1 .. Len(x) : x[j].op \in {"add_auth", "add_cached"}}})
+                                 ELSE RandRec(x))
+                                EXCEPT !.cf = RandomElement(BOOLEAN), !.ttl = TtlBytes(RandomElement({0, 120, 1000}))]]
       [] die = 13 -> [op |-> "clear"]
       [] OTHER -> [op |-> "reply", id |-> RandomElement({0, 7, 65535}),
                    qd |-> IF RandomElement({1, 2, 3}) = 1 THEN <<RandQuestion(x), RandQuestion(x)>> ELSE <<RandQuestion(x)>>]
